@@ -9,6 +9,8 @@ package xts
 //@ props C13
 //@ nonnil tweak
 //@ modifies *tweak
-//@ ensures tweak[15] == (old(tweak[15]) * 2 + old(tweak[14]) / 128) % 256
+// multiplication by x in GF(2^128), little-endian bytes (IEEE 1619 section 5.2): shift left by one bit across the
+// 16 bytes, and reduce with 0x87 into byte 0 when bit 127 was set
+//@ ensures forall(j, 1, 16, tweak[j] == (old(tweak[j]) * 2 + old(tweak[j-1]) / 128) % 256)
 //@ ensures tweak[0] == ite(old(tweak[15]) >= 128, uint8(old(tweak[0]) * 2) ^ 135, uint8(old(tweak[0]) * 2))
 //@ canary ensures tweak[15] == old(tweak[15])
